@@ -294,9 +294,30 @@ impl Check for C07Check {
                 let post: Vec<u8> = encode_elems(
                     &(0..64).map(|i| if i % 7 == 0 { Elem::Marker { top: i % 2 == 0, counter: i } } else { Elem::Ts { ch: (i % 59) as u8, t24: i * 3 } }).collect::<Vec<_>>(),
                 );
-                let mut w = lo;
                 let mut classes = [0u64; 4];
-                while w < hi {
+                // stepped sweep plus, when stepping, the boundary patterns of the low 24 bits for
+                // every top byte in range
+                let mut words: Vec<u64> = Vec::new();
+                {
+                    let mut w = lo;
+                    while w < hi {
+                        words.push(w);
+                        w += step;
+                    }
+                    if step > 1 {
+                        let mut top = lo >> 24;
+                        while (top << 24) < hi {
+                            for low in [0u64, 1, 2, 3, 0x3B, 0x3C, 0x3D, 0x7F_FFFE, 0x7F_FFFF, 0x80_0000, 0x80_0001, 0xFF_FFFC, 0xFF_FFFD, 0xFF_FFFE, 0xFF_FFFF] {
+                                let w = (top << 24) | low;
+                                if w >= lo && w < hi {
+                                    words.push(w);
+                                }
+                            }
+                            top += 1;
+                        }
+                    }
+                }
+                for w in words {
                     let word = w as u32;
                     let stream: Vec<u8> = if context {
                         [&pre[..], &word.to_le_bytes()[..], &post[..]].concat()
@@ -335,7 +356,6 @@ impl Check for C07Check {
                             }
                         }
                     }
-                    w += step;
                 }
                 for c in classes {
                     log.u64(c);
